@@ -71,6 +71,7 @@ structure St where
   store : Store
   procs : Nat → OpProc
   tk : Option Tick := none    -- a checkpoint ticker callback that is in flight (it runs OUTSIDE the task queue)
+  ser : Bool := true          -- ghost: no ticker callback / savepoint request has been run in pieces so far
 
 def init (w d c0 : Nat) (bmax : Nat := 3) : St :=
   { w := w, bmax := bmax, d := d, now := 1000, ops := [], srs := [], live := fun _ => none, status := .init,
@@ -327,7 +328,7 @@ def step (s : St) : Act → St × Out
   | .tickA =>
       if !s.ticker then (s, .stopped)
       else if s.tk.isSome then (s, .noTick)
-      else ({ s with tk := some { ops := s.asmOps } }, .tickRead s.asmOps)
+      else ({ s with tk := some { ops := s.asmOps }, ser := false }, .tickRead s.asmOps)
   | .savepoint =>
       if s.status != .running then (s, .spNotRunning)
       else match s.store.pending with
@@ -341,24 +342,25 @@ def step (s : St) : Act → St × Out
   | .spA =>
       if s.status != .running then (s, .spNotRunning)
       else if s.tk.isSome then (s, .noTick)
-      else ({ s with tk := some { ops := s.asmOps, sp := true } }, .tickRead s.asmOps)
+      else ({ s with tk := some { ops := s.asmOps, sp := true }, ser := false }, .tickRead s.asmOps)
   | .tickB =>
       match s.tk with
       | some { ops := ops, start := none, sp := sp } =>
         (match s.store.pending with
         | some p =>
-          if !sp then ({ s with tk := none }, .retry)
-          else if p.sp then ({ s with tk := none }, .spBusy)
-          else ({ s with tk := none, store := { s.store with pending := some { p with sp := true } } }, .spJoined p.id)
+          if !sp then ({ s with tk := none, ser := false }, .retry)
+          else if p.sp then ({ s with tk := none, ser := false }, .spBusy)
+          else ({ s with tk := none, ser := false, store := { s.store with pending := some { p with sp := true } } },
+                .spJoined p.id)
         | none =>
           let n := s.store.counter + 1
           let p : Pending := { id := n, expOps := ops, expSrs := s.asmSrs, waitOps := ops, waitSrs := s.asmSrs, sp := sp }
-          ({ s with store := { s.store with counter := n, pending := some p },
+          ({ s with store := { s.store with counter := n, pending := some p }, ser := false,
                     tk := some { ops := ops, start := some (n, s.asmSrs), sp := sp } }, .ckptCreated n))
       | _ => (s, .noTick)
   | .tickC =>
       match s.tk with
-      | some { ops := _, start := some (n, srs), sp := _ } => ({ s with tk := none }, .ckpt n srs)
+      | some { ops := _, start := some (n, srs), sp := _ } => ({ s with tk := none, ser := false }, .ckpt n srs)
       | _ => (s, .noTick)
 
 def run (s : St) : List Act → St × List Out
@@ -375,12 +377,15 @@ def progressActs (s : St) : List Act :=
     (s.asmOps.flatMap fun i => s.asmSrs.map fun x => Act.bar i x (s.store.counter + 1))) ++
     [Act.publish (s.store.counter + 1)]
 
-/-- the states of all traces from all initial configurations -/
-def Reachable (s : St) : Prop :=
+/-- the states of all traces from all initial configurations in which every ticker callback and savepoint request runs
+as ONE step (`.tick`, `.savepoint`). The code does not enforce such schedules (finding D57); theorems that need them
+carry `_partial`. -/
+def ReachableSerial (s : St) : Prop :=
   ∃ w d c0 bmax acts, (∀ a ∈ acts, a.serial = true) ∧ s = (run (init w d c0 bmax) acts).1
 
-/-- the states of all traces, ticker callbacks interleaved with tasks included -/
-def ReachableAny (s : St) : Prop := ∃ w d c0 bmax acts, s = (run (init w d c0 bmax) acts).1
+/-- the states of ALL traces from all initial configurations: ticker callbacks and savepoint requests may also run in
+their pieces (`.tickA/.tickB/.tickC`, `.spA`) with any tasks in between, as the code allows -/
+def ReachableAll (s : St) : Prop := ∃ w d c0 bmax acts, s = (run (init w d c0 bmax) acts).1
 
 /-- registered with an unexpired heartbeat -/
 def alive (s : St) (i : Nat) : Prop := ∃ hb, s.live i = some hb ∧ expired s.d s.now hb = false
